@@ -37,7 +37,7 @@ func (vc *VC) inPkg(f *ssa.Function) bool {
 }
 
 func isSpecHelper(name string) bool {
-	return name == "__forall" || name == "__exists" || name == "__old" || name == "__trigger" || name == "__has" || name == "__same"
+	return name == "__forall" || name == "__exists" || name == "__old" || name == "__trigger" || name == "__has" || name == "__same" || name == "__fresh"
 }
 
 func (vc *VC) isSpecDecl(name string) *SpecDecl {
@@ -142,6 +142,21 @@ func (fr *Frame) staticCall(t *ssa.Call, callee *ssa.Function, bindings []Val) {
 				vc.trigStack[top] = append(vc.trigStack[top], "("+strings.Join(pats, " ")+")")
 			}
 			fr.vals[t] = Val{T: tTrue}
+			return
+		case name == "__fresh":
+			// allocated during the call: not reachable from the pre-state
+			if fr.old == nil {
+				unsup("__fresh without an old state")
+			}
+			x := args[0].T
+			if mi, ok := t.Common().Args[0].(*ssa.MakeInterface); ok {
+				x = fr.val(mi.X).T
+			}
+			p := x
+			if x.Sort == SSlice {
+				p = sptr(x)
+			}
+			fr.vals[t] = Val{T: Term{fmt.Sprintf("(> (alloc %s) %s)", p.S, fr.old.nalloc.S), SBool}}
 			return
 		case name == "__same":
 			fr.vals[t] = Val{T: eq(args[0].T, args[1].T)}
